@@ -14,6 +14,7 @@ export VERIF_CORPUS=$S/verif/corpus
 cd $S/verif && python3 tools/gen_nd.py && (cd lean && lake build Dtr dtr_model >/dev/null 2>&1); (cd harness && CARGO_NET_OFFLINE=true cargo build --offline >/dev/null 2>&1)
 out=$S/harmless.tsv; : > $out
 claimed=$(python3 -c "import json;print(' '.join(c['property_id'] for c in json.load(open('MANIFEST.json'))['checks']))")
+[ -n "${PROPS:-}" ] && claimed="$PROPS"
 for patch in ${PATCHES:-/tmp/wt/H*/_out/patch*.diff}; do
   id=$(echo $patch | sed 's#/tmp/wt/##; s#/_out/patch#-#; s#.diff##')
   git -C $S/repo checkout -q -- . ; git -C $S/repo clean -fdq
